@@ -122,3 +122,23 @@ def replay_tamper(inp):
                             % (cipher, mac, what, k, len(got[k]), len(sent[k]) if k < len(sent) else -1),
                             inputs=dict(cipher=cipher, mac=mac, tamper=what))
     return dict(violates=False, evaluations=n)
+
+
+def nonce_counter(inp):
+    """the real Packetizer._inc_iv_counter on invocation counters across the whole 64-bit range, the top included: the
+    counter must go up by exactly one (or the function must refuse), the fixed four bytes must stay"""
+    from paramiko.packet import Packetizer
+    p = Packetizer.__new__(Packetizer)
+    bad = []
+    for c in [0, 1, 255, 256, 2 ** 32 - 1, 2 ** 32, 2 ** 63, 2 ** 64 - 3, 2 ** 64 - 2, 2 ** 64 - 1]:
+        iv = b"\x01\x02\x03\x04" + c.to_bytes(8, "big")
+        try:
+            out = p._inc_iv_counter(iv)
+        except OverflowError:
+            if c != 2 ** 64 - 1:
+                bad.append({"counter": hex(c), "why": "raised OverflowError below the top of the counter"})
+            continue
+        if len(out) != 12 or out[:4] != iv[:4] or int.from_bytes(out[4:], "big") != c + 1:
+            bad.append({"counter": hex(c), "next_nonce": out.hex(), "why": "the invocation counter did not go up by exactly one (a nonce used twice "
+                        "lets whole packets be dropped, swapped or replayed without failing the tag)"})
+    return {"violates": bool(bad), "detail": bad[:3]}
